@@ -659,6 +659,17 @@ class Effects:
                     m = self.p.find_method(self_class, attr)
                     if m is not None:
                         ts = self.cg._with_wrappers([m])
+            if self_class is not None and cs.via == "indirect" and f.cls is not None and f.cls.qualname in mro_names:
+                # a bound method of self taken as a value (`search = self.a if c else self.b; search(..)`): dispatch on the
+                # concrete receiver class as for a direct self.m() call
+                mapped = []
+                for t in ts:
+                    if t.cls is not None and (t.cls.qualname in mro_names or self.p.is_subclass(t.cls, f.cls.qualname)):
+                        m = self.p.find_method(self_class, t.name)
+                        t = m if m is not None else t
+                    if t not in mapped:
+                        mapped.append(t)
+                ts = self.cg._with_wrappers(mapped)
             return [t for t in ts if t.qualname not in blocked]
 
         reach: Dict[str, FunctionInfo] = {}
